@@ -13,7 +13,8 @@ RULE = ('bounded-exhaustive strings over the 26-character delimiter alphabet (qu
         'plus a seeded slice of length 4; thorough: length<=4 complete, length 5 over a '
         '14-character sub-alphabet), exhaustive token sequences over 22 tokens joined with and '
         'without blanks, seeded random Unicode/long inputs, valid texts from the tree generator '
-        'with truncations and one-character corruptions, nesting to 200 levels. A case is '
+        'with truncations and one-character corruptions, every prefix of short valid graph texts and of '
+        'triple conjunctions in all documented spacing styles, nesting to 200 levels. A case is '
         'non-trivial when at least one of the three entry points accepts it or it is a corruption '
         'of an accepted text; enumerated strings are distinct by construction, random ones are '
         'de-duplicated by digest.')
@@ -23,7 +24,7 @@ ANCHORS = ['penman._parse:_parse_node', 'penman._parse:_parse_edge', 'penman._pa
            'penman._lexer:TokenIterator.peek', 'penman._lexer:TokenIterator.error']
 PROBES = {'C07': 0, 'C08': 40}     # the driver itself decides C07 on every string
 MIN_EVAL = {'quick': 20000, 'thorough': 400000}
-REQUIRED_COUNTERS = ['accepted', 'rejected', 'deep_ok']
+REQUIRED_COUNTERS = ['accepted', 'rejected', 'deep_ok', 'prefixes']
 ASSUMPTIONS = ['the reference recogniser (pmon/ref/lexer.py) reads docs/notation.rst correctly',
                'regular-expression time inside the lexer is only guarded by the wall-clock watchdog']
 
@@ -75,6 +76,11 @@ def cases(ctx):
             if ctx.mine(b):
                 yield 'deep', {'depth': d, 'broken': broken}
             b += 1
+    # ---- every prefix (truncation point) of short valid texts, graph and triple notation
+    for i in range(150 if q else 2500):
+        if not ctx.time_left():
+            break
+        yield 'prefixes', {'i': i}
     # ---- random
     n = 1500 if q else 20000
     for i in range(n):
@@ -115,6 +121,28 @@ def oracle(ctx, kind, p):
                                                  monitors.stack_depth())
         ctx.notes['recursion_limit_during_code_under_test'] = sys.getrecursionlimit()
         ctx.count('accepted' if acc else 'rejected')
+    elif kind == 'prefixes':
+        rng = ctx.rng('prefixes', p['i'])
+        import penman
+        if p['i'] % 2:
+            t = T.rand_tree(rng, n_nodes=rng.choice([1, 2, 3]), max_branch=3, allow_empty_target=True)
+            s = penman.format(penman.Tree(t), indent=rng.choice([None, 1]))
+        else:
+            # a triple conjunction in one of the documented spacing styles
+            comma = rng.choice([',', ', ', ' ,', ' , '])
+            caret = rng.choice(['^', ' ^', ' ^ ', ' ^\n'])
+            parts = []
+            for _ in range(rng.randrange(1, 4)):
+                tgt = rng.choice(['b', '"s t"', '7', 'x-01', '', '"q)^("'])
+                parts.append(f"{rng.choice(['instance', 'ARG0', 'mod-of', ':op1'])}({rng.choice(['a', 'x1', 'b.c'])}{comma}{tgt})")
+            s = caret.join(parts)
+        for k in range(len(s) + 1):
+            pre = s[:k]
+            ctx.current = ['str', {'s': pre}]
+            acc = _text.check_parsers(ctx, pre, budget=(k % 20 == 0))
+            ctx.case(pre, True)
+            ctx.count('accepted' if acc else 'rejected')
+            ctx.count('prefixes')
     elif kind == 'rand':
         rng = ctx.rng('rand', p['i'])
         k = p['i'] % 4
@@ -130,6 +158,8 @@ def oracle(ctx, kind, p):
                 s = S.corrupt_text(rng, s)
             if rng.random() < 0.3:
                 s = '# ::id %d ::x y\n' % p['i'] + s + '\n\n' + s
+            elif rng.random() < 0.4:
+                s = '\n'.join(S.comment_line(rng) for _ in range(rng.randrange(1, 4))) + '\n' + s
             nt = True
         ctx.current = ['str', {'s': s}]
         acc = _text.check_parsers(ctx, s, budget=(p['i'] % 10 == 0), containers=True)
